@@ -1,6 +1,7 @@
 import Qv.Drv.C14
 import Qv.Drv.C15
 import Qv.Drv.C11
+import Qv.Drv.C03
 /-! Line protocol: `<op> <json>` per line in, one JSON document per line out. -/
 open Lean
 
@@ -8,7 +9,8 @@ def handlers : List (String × (Json → Except String Json)) := [
   ("C14.pmap", Qv.Drv.C14.pmap),
   ("C14.serial", Qv.Drv.C14.serial),
   ("C15.history", Qv.Drv.C15.history),
-  ("C11.prop", Qv.Drv.C11.prop)
+  ("C11.prop", Qv.Drv.C11.prop),
+  ("C03.overclaims", Qv.Drv.C03.overclaimsJ)
 ]
 
 def handle (line : String) : String :=
